@@ -15,6 +15,7 @@ INVARIANT DeclAgrees
 INVARIANT SpanDesign
 INVARIANT AllClosedAtEnd
 INVARIANT RunsToEnd
+INVARIANT BaseIsEarliest
 INVARIANT EscStandalone
 INVARIANT EscEmbedded
 INVARIANT EscOnlyAddsBackslashes
